@@ -13,7 +13,7 @@ Hypothesis cb_ok : forall n, cb H_RESPONSE_BODY_DATA n = CB_OK.
 (* ================= C06_line_assembly, response side ================= *)
 Theorem bd_rs_line_assembly o rem c lrest rest t :
   bd_rs_inv o c -> c_out_state c = RES_BODY_CHUNKED_LENGTH -> k_consume (c_out c) = k_read (c_out c) ->
-  bd_rs_rest c ++ concat rem = lrest ++ LF :: rest -> bd_no_lf lrest = true -> bd_suffixes_ok lrest = true ->
+  bd_rs_rest c ++ concat rem = lrest ++ LF :: rest -> bd_no_lf lrest = true ->
   (length (bd_rs_pending c) + length lrest + 1 <= g_field_limit_hard g)%nat ->
   Forall (fun d => d <> []) rem -> tx_slot c o = Some t ->
   let line := bd_rs_pending c ++ lrest ++ [LF] in
@@ -33,7 +33,8 @@ Theorem bd_rs_line_assembly o rem c lrest rest t :
                t_response_message_len t' = t_response_message_len t + Z.of_nat (length line) /\
                (v = 0 -> t_response_progress t' = c_HTP_RESPONSE_TRAILER).
 Proof.
-  intros Inv Hs Hc Hw Hnl Hsf Hhard Hrem Hl line v Hv.
+  intros Inv Hs Hc Hw Hnl Hhard Hrem Hl line v Hv.
+  assert (Hsf : rs_probe_scan (bd_rs_pending c ++ lrest ++ [LF]) = true) by (apply bd_value_scan; exact Hv).
   destruct (bd_rs_assemble cb g o rem c lrest rest Inv Hs Hc Hw Hnl Hsf Hhard Hrem)
     as (c2 & rem2 & l2 & tl2 & R2 & I2 & S2 & C2 & Rs2 & N2 & Pr2 & B2 & W2 & F2 & (Sm1 & Sm2 & Sm3 & Sm4)).
   assert (Hl2 : tx_slot c2 o = Some t) by (rewrite Sm2; exact Hl).
@@ -65,7 +66,7 @@ Qed.
 (* ================= a chunk-size line with a positive value, as a segment ================= *)
 Lemma bd_rs_line_seg o rem c lrest rest :
   bd_rs_inv o c -> bd_rs_clean c -> c_out_state c = RES_BODY_CHUNKED_LENGTH ->
-  bd_rs_rest c ++ concat rem = lrest ++ LF :: rest -> bd_no_lf lrest = true -> bd_suffixes_ok lrest = true ->
+  bd_rs_rest c ++ concat rem = lrest ++ LF :: rest -> bd_no_lf lrest = true ->
   (length lrest + 1 <= g_field_limit_hard g)%nat -> Forall (fun d => d <> []) rem ->
   0 < bd_rs_line_value (lrest ++ [LF]) ->
   exists c' rem',
@@ -73,11 +74,11 @@ Lemma bd_rs_line_seg o rem c lrest rest :
     c_out_state c' = RES_BODY_CHUNKED_DATA /\ c_out_chunked_length c' = bd_rs_line_value (lrest ++ [LF]) /\
     bd_rs_rest c' ++ concat rem' = rest /\ c_out_body_data_left c' = c_out_body_data_left c.
 Proof.
-  intros Inv (Cl1 & Cl2) Hs Hw Hnl Hsf Hhard Hrem Hv.
+  intros Inv (Cl1 & Cl2) Hs Hw Hnl Hhard Hrem Hv.
   destruct (bs_live _ _ Inv) as (t & Hl & Hh & Hcep).
   assert (Hhard' : (length (bd_rs_pending c) + length lrest + 1 <= g_field_limit_hard g)%nat) by (rewrite Cl2; cbn; lia).
   assert (Hv0 : 0 <= bd_rs_line_value (bd_rs_pending c ++ lrest ++ [LF])) by (rewrite Cl2; cbn [app]; lia).
-  destruct (bd_rs_line_assembly o rem c lrest rest t Inv Hs Cl1 Hw Hnl Hsf Hhard' Hrem Hl Hv0)
+  destruct (bd_rs_line_assembly o rem c lrest rest t Inv Hs Cl1 Hw Hnl Hhard' Hrem Hl Hv0)
     as (c2 & rem2 & c' & R2 & Hfn & A1 & A2 & A3 & A4 & A5 & A6 & A7 & A8 & I2 & A9 & A10 & A11 & A12 & (d & D1 & D2 & D3) & t' & T1 & T2 & T2' & T3 & T4 & T5).
   rewrite Cl2 in *. cbn [app] in *.
   set (v := bd_rs_line_value (lrest ++ [LF])) in *.
@@ -127,7 +128,7 @@ Qed.
 (* ================= the last-chunk line (value 0) ================= *)
 Lemma bd_rs_last_line o rem c lrest rest t :
   bd_rs_inv o c -> bd_rs_clean c -> c_out_state c = RES_BODY_CHUNKED_LENGTH ->
-  bd_rs_rest c ++ concat rem = lrest ++ LF :: rest -> bd_no_lf lrest = true -> bd_suffixes_ok lrest = true ->
+  bd_rs_rest c ++ concat rem = lrest ++ LF :: rest -> bd_no_lf lrest = true ->
   (length lrest + 1 <= g_field_limit_hard g)%nat -> Forall (fun d => d <> []) rem ->
   bd_rs_line_value (lrest ++ [LF]) = 0 -> tx_slot c o = Some t ->
   exists c' rem' t',
@@ -138,10 +139,10 @@ Lemma bd_rs_last_line o rem c lrest rest t :
     t_response_entity_len t' = t_response_entity_len t /\
     t_response_message_len t' = t_response_message_len t + Z.of_nat (length lrest + 1).
 Proof.
-  intros Inv (Cl1 & Cl2) Hs Hw Hnl Hsf Hhard Hrem Hv Hl.
+  intros Inv (Cl1 & Cl2) Hs Hw Hnl Hhard Hrem Hv Hl.
   assert (Hhard' : (length (bd_rs_pending c) + length lrest + 1 <= g_field_limit_hard g)%nat) by (rewrite Cl2; cbn; lia).
   assert (Hv0 : 0 <= bd_rs_line_value (bd_rs_pending c ++ lrest ++ [LF])) by (rewrite Cl2; cbn [app]; lia).
-  destruct (bd_rs_line_assembly o rem c lrest rest t Inv Hs Cl1 Hw Hnl Hsf Hhard' Hrem Hl Hv0)
+  destruct (bd_rs_line_assembly o rem c lrest rest t Inv Hs Cl1 Hw Hnl Hhard' Hrem Hl Hv0)
     as (c2 & rem2 & c' & R2 & Hfn & A1 & A2 & A3 & A4 & A5 & A6 & A7 & A8 & I2 & A9 & A10 & A11 & A12 & (d & D1 & D2 & D3) & t' & T1 & T2 & T2' & T3 & T4 & T5).
   rewrite Cl2 in *. cbn [app] in *. rewrite Hv in *.
   change (bd_rs_line_state 0) with RES_HEADERS in A2.
@@ -564,8 +565,8 @@ Qed.
 (* ================= (3) chunked decode(encode), response side ================= *)
 Theorem bd_rs_chunked_body o : forall ks rem c last rest t,
   bd_rs_inv o c -> bd_rs_clean c -> c_out_state c = RES_BODY_CHUNKED_LENGTH ->
-  Forall (fun k => bd_res_chunk_ok k = true) ks ->
-  bd_last_ok bd_rs_line_value last = true -> bd_res_line_ok last = true ->
+  Forall (fun k => bd_chunk_ok bd_rs_line_value k = true) ks ->
+  bd_last_ok bd_rs_line_value last = true ->
   bd_lines_fit (g_field_limit_hard g) ks last = true ->
   bd_rs_rest c ++ concat rem = bd_chunks_wire ks ++ last ++ rest ->
   Forall (fun d => d <> []) rem -> tx_slot c o = Some t ->
@@ -578,23 +579,20 @@ Theorem bd_rs_chunked_body o : forall ks rem c last rest t,
     t_response_entity_len t' = t_response_entity_len t + Z.of_nat (length (bd_chunks_data ks)) /\
     t_response_message_len t' = t_response_message_len t + Z.of_nat (length (bd_chunks_wire ks) + length last).
 Proof.
-  induction ks as [|k ks IH]; intros rem c last rest t Inv Cl Hs Hks Hlast Hlok Hfit Hw Hrem Hl.
+  induction ks as [|k ks IH]; intros rem c last rest t Inv Cl Hs Hks Hlast Hfit Hw Hrem Hl.
   - unfold bd_last_ok in Hlast. apply andb_true_iff in Hlast. destruct Hlast as (L1 & L2). apply Z.eqb_eq in L2.
     destruct (bd_is_line_split' last L1) as (p & Ep & Np). subst last.
-    unfold bd_res_line_ok in Hlok. rewrite removelast_last in Hlok.
     unfold bd_lines_fit in Hfit. cbn [forallb andb] in Hfit. apply Nat.leb_le in Hfit. rewrite app_length in Hfit. cbn [length] in Hfit.
     cbn [bd_chunks_wire map concat app] in Hw. rewrite <- app_assoc in Hw. cbn [app] in Hw.
-    destruct (bd_rs_last_line o rem c p rest t Inv Cl Hs Hw Np Hlok Hfit Hrem L2 Hl)
+    destruct (bd_rs_last_line o rem c p rest t Inv Cl Hs Hw Np Hfit Hrem L2 Hl)
       as (c' & rem' & t' & R & S & _ & W & F & E & _ & T1 & T2 & T3 & T4).
     exists c', rem', t', []. bd_rsplits; auto.
     + cbn. lia.
     + rewrite T4. cbn [bd_chunks_wire map concat length]. rewrite app_length. cbn [length]. lia.
   - pose proof (Forall_inv Hks) as Hk. pose proof (Forall_inv_tail Hks) as Hks'. cbn beta in Hk.
-    unfold bd_res_chunk_ok in Hk. apply andb_true_iff in Hk. destruct Hk as (Hk & Klok).
     unfold bd_chunk_ok in Hk. apply andb_true_iff in Hk. destruct Hk as (Hk & K4). apply andb_true_iff in Hk. destruct Hk as (Hk & K3).
     apply andb_true_iff in Hk. destruct Hk as (K1 & K2). apply Z.eqb_eq in K4. apply negb_true_iff in K3. apply Nat.eqb_neq in K3.
     destruct (bd_is_line_split' _ K1) as (p & Ep & Np). destruct (bd_is_line_split' _ K2) as (e & Ee & Ne).
-    unfold bd_res_line_ok in Klok. rewrite Ep, removelast_last in Klok.
     unfold bd_lines_fit in Hfit. cbn [forallb] in Hfit. apply andb_true_iff in Hfit. destruct Hfit as (Hfit & Hfl).
     apply andb_true_iff in Hfit. destruct Hfit as (Hf1 & Hf2). apply Nat.leb_le in Hf1.
     assert (Hfit' : bd_lines_fit (g_field_limit_hard g) ks last = true) by (unfold bd_lines_fit; rewrite Hf2, Hfl; reflexivity).
@@ -603,7 +601,7 @@ Proof.
     { unfold bd_chunks_wire. cbn [map concat]. unfold bd_chunk_wire. rewrite Ep, Ee. rewrite <- !app_assoc. cbn [app]. reflexivity. }
     rewrite Hwire in Hw. rewrite Ep, app_length in Hf1. cbn [length] in Hf1.
     assert (Hv : 0 < bd_rs_line_value (p ++ [LF])) by (rewrite <- Ep, K4; destruct (bc_data k); [exfalso; apply K3; reflexivity|cbn; lia]).
-    destruct (bd_rs_line_seg o rem c p _ Inv Cl Hs Hw Np Klok Hf1 Hrem Hv) as (c1 & rem1 & Seg1 & S1 & V1 & W1 & B1).
+    destruct (bd_rs_line_seg o rem c p _ Inv Cl Hs Hw Np Hf1 Hrem Hv) as (c1 & rem1 & Seg1 & S1 & V1 & W1 & B1).
     assert (Hdne : bc_data k <> []) by (intros E0; rewrite E0 in K3; apply K3; reflexivity).
     rewrite <- Ep, K4 in V1.
     destruct (bd_rs_chunkdata_seg o rem1 c1 (bc_data k) _ (rg_inv _ _ _ _ _ _ _ _ _ Seg1) (rg_clean _ _ _ _ _ _ _ _ _ Seg1) S1 V1 Hdne (rg_rem _ _ _ _ _ _ _ _ _ Seg1) W1)
@@ -614,7 +612,7 @@ Proof.
     destruct Seg2 as [R2 I2 C2 F2 (ev2 & E21 & E22 & E23) L2].
     destruct Seg3 as [R3 I3 C3 F3 (ev3 & E31 & E32 & E33) L3].
     destruct (L1 _ Hl) as (t1 & T11 & T12 & T13). destruct (L2 _ T11) as (t2 & T21 & T22 & T23). destruct (L3 _ T21) as (t3 & T31 & T32 & T33).
-    destruct (IH rem3 c3 last rest t3 I3 C3 S3 Hks' Hlast Hlok Hfit' W3 F3 T31)
+    destruct (IH rem3 c3 last rest t3 I3 C3 S3 Hks' Hlast Hfit' W3 F3 T31)
       as (c' & rem' & t' & evs & R & S & W & F & E & Dl & Ev & T1 & T2 & T3 & T4).
     exists c', rem', t', (evs ++ ev3 ++ ev2 ++ ev1). bd_rsplits; auto.
     + eapply bd_rs_reach_trans; [exact R1|]. eapply bd_rs_reach_trans; [exact R2|]. eapply bd_rs_reach_trans; [exact R3|exact R].
